@@ -793,7 +793,7 @@ fn cmd_run(args: &[String]) -> i32 {
         "coverage": {
             "evaluations": agg.evaluations,
             "distinct_nontrivial": distinct,
-            "rule": "one evaluation = one simulated execution (a Plan run in a pristine forked process). Plans are a pure function of (VERIF_SEED, stratum, index): stratum A = one operation under 1+K hash bases / file enumeration orders; B = sequential call histories over 1-3 caller threads with faults and a sentinel phase; C = 2-4 concurrent callers as shuttle tasks under the simulator's seeded scheduler with faults and a sentinel phase. Non-trivial = at least two calls, or any fault fired (non-reference hash base, permuted enumeration, context switch, real or injected panic, failed call, env change, debug session). Distinct = distinct FNV-64 of (calls incl. program texts and options, sentinel, hash base, env, schedule actually taken).",
+            "rule": "one evaluation = one simulated execution (a Plan run in a pristine forked process). Plans are a pure function of (VERIF_SEED, stratum, index): stratum A = one operation under 1+K hash bases / file enumeration orders; B = sequential call histories over 1-3 caller threads with faults and a sentinel phase; C = 2-4 concurrent callers (real OS threads under the simulator's baton scheduler; a quarter of them twins compiling the same program) with faults and a sentinel phase; one B execution in forty is a long history (the judged calls, 120-520 unjudged filler calls, the judged calls again). Non-trivial = at least two calls, or any fault fired (non-reference hash base, permuted enumeration, context switch, real or injected panic, failed call, env change, debug session, log level, clock, heap layout). Distinct = distinct FNV-64 of (calls incl. program texts and options, sentinel, hash base, env, schedule actually taken).",
             "samples": agg.samples,
             "executions_per_stratum": agg.per_stratum,
             "stratum_C_executions_not_interleaved": agg.degraded,
@@ -826,11 +826,11 @@ fn cmd_run(args: &[String]) -> i32 {
             "violation_clusters": clusters.iter().map(|(s, m)| serde_json::json!({"signature": s, "executions": m.len()})).collect::<Vec<_>>(),
             "known_findings_hit": known_hits,
             "components_real": ["prqlc", "prqlc-parser", "chumsky", "sqlparser", "sqlformat", "ariadne", "regex", "serde_json", "csv", "chrono", "std RwLock/OnceLock (uncontended, under shadow locks)", "prqlc::debug::MessageLogger (during debug sessions)"],
-            "components_stubbed": ["getrandom (PRNG; decides std RandomState keys)", "log global logger (harness logger: preemption points, injected panics)", "thread scheduling (shuttle 0.9.3 tasks under the simulator's own seeded Scheduler)", "anstream colour choice pinned to Never"],
+            "components_stubbed": ["getrandom (PRNG; decides std RandomState keys)", "clock_gettime (simulated clock)", "global allocator (system allocator plus a scheduling hook and heap-layout perturbation)", "log global logger (harness logger wired like the CLI's: preemption points, injected panics, forwards to the real MessageLogger during debug sessions); log max level set per context", "thread scheduling (real OS threads parked and released one at a time by the simulator's seeded scheduler; optional shuttle 0.9.3 coroutine engine)", "__tsan_atomic* / __sanitizer_cov_trace_pc_guard callbacks of the instrumented library crates (scheduling point, then the real atomic operation)", "colour environment variables removed, stderr not a terminal"],
         },
         "assumptions": [
             "reference context = same build, pristine process, one thread, hash base 0, identity file order, no fault; a deterministic-but-wrong output is invisible here",
-            "interleavings are explored at the hooked synchronisation points (CURRENT_LOG, 8 lazily initialised statics) and at log sites, not between arbitrary instructions",
+            "interleavings are explored at the hooked synchronisation points (CURRENT_LOG, 8 lazily initialised statics), call boundaries, log sites, seeded allocations, seeded basic-block edges and atomic operations of the two library crates (incl. inlined std lock fast paths) - not inside dependencies compiled without the instrumentation",
             "getrandom interposition decides std RandomState keys (verified per execution by the canary map order in the event log)",
             "PL is compared as canonical JSON; source ids are compared through SourceTree::get_path; panic messages and debug-log contents are not compared",
         ],
